@@ -60,6 +60,18 @@ def gen(rng, tier):
             ops = ops + ["R"] + second + ["N"] + second
             kind += "-reuse"
         out.append((line(depth, fl, ops), {"kind": kind, "reuse": reuse}))
+    # an allocation failure during a parse, then reset and reuse: the reset parser must still behave like a new one
+    # (and nothing may be leaked or corrupted): every allocation index of a few documents with long tokens
+    docs = [b'{"' + b"k" * 40 + b'": ["' + b"v" * 70 + b'", 1.25, {"n": [null, true]}], "z": "' + b"\\u00e9" * 12 + b'"}',
+            b'[' + b"1234567890" * 5 + b', "' + b"s" * 33 + b'", "' + b"t" * 65 + b'"]']
+    seconds = [b'["' + b"w" * 45 + b'", {"a": "' + b"x" * 61 + b'"}]', b'{"q": [1, 2.5e3, "' + b"y" * 35 + b'"]}']
+    for di, d in enumerate(docs):
+        kmax = 45 if tier == "quick" else 90
+        for k in range(kmax):
+            sec = seconds[(k + di) % 2]
+            second = ["P" + hx(sec), "P" + hx(b" ")]
+            ops = ["M%d" % k, "P" + hx(d), "R"] + second + ["N"] + second
+            out.append((line(32, rng.choice([0, 1]), ops), {"kind": "oom-reuse", "reuse": True}))
     return out
 
 
